@@ -27,13 +27,21 @@ AbsentEntries == { <<0, 1, "cWW">>, <<2, 0, "cWW">>, <<0, 5, "tHS">>, <<0, 0, "c
 PutAt(l, pos, d) == LET p == IF pos > Len(l) + 1 THEN Len(l) + 1 ELSE pos IN
                     [ i \in 1..(Len(l) + 1) |-> IF i < p THEN l[i] ELSE IF i = p THEN d ELSE l[i - 1] ]
 
+\* lists naming the lower file index first (no reversed entries): a cheaper way to reach 3 entries in 2 classes
+OrientedOver(cl) == { e \in EntriesOver(cl) : e[1] < e[2] }
 ListsL == CASE Tier = "tiny"     -> ListsUpTo(2, {"cWW"})
-            [] Tier = "quick"    -> ListsUpTo(3, {"cWW", "tHS"})
+            [] Tier = "quick"    -> ListsUpTo(3, {"cWW"}) \cup ListsUpTo(2, {"cWW", "tHS", "cWH"})
+                                    \cup [1..3 -> OrientedOver({"cWW", "tHS"})]
             [] Tier = "thorough" -> ListsUpTo(4, {"cWW"}) \cup ListsUpTo(3, {"cWW", "tHS", "cWH"})
+\* lists also run with the chain names against the file order
 ShortL == CASE Tier = "tiny"     -> ListsUpTo(1, {"cWW"})
             [] Tier = "quick"    -> ListsUpTo(2, {"cWW", "tHS"})
             [] Tier = "thorough" -> ListsUpTo(3, {"cWW", "tHS"})
-AbsentL == { PutAt(l, pos, d) : l \in ShortL, pos \in 1..4, d \in AbsentEntries } \* pos > Len+1 appends
+\* lists into which one entry naming an absent residue is inserted at every position
+BaseA  == CASE Tier = "tiny"     -> ListsUpTo(1, {"cWW"})
+            [] Tier = "quick"    -> ListsUpTo(2, {"cWW"})
+            [] Tier = "thorough" -> ListsUpTo(2, {"cWW", "tHS"})
+AbsentL == { PutAt(l, pos, d) : l \in BaseA, pos \in 1..4, d \in AbsentEntries } \* pos > Len+1 appends
 CasesL ==
      { [fam |-> "L", entries |-> l, gaps |-> g, inorder |-> TRUE]  : l \in ListsL \cup AbsentL, g \in BOOLEAN }
 \cup { [fam |-> "L", entries |-> l, gaps |-> g, inorder |-> FALSE] : l \in ShortL, g \in BOOLEAN }
